@@ -313,6 +313,12 @@ Definition new_const_native_histogram (d : desc) (count : Z) (sum : f64) (pos ne
 Definition timestamp_ms (unix_sec nanosecond : Z) : Z :=
   wrap64 (wrap64 (unix_sec * 1000) + Z.quot nanosecond 1000000).
 
+(* a stack of timestamp wrappers (innermost first) around a metric whose own Write leaves the timestamp
+   [inner] (None for every metric of this library): each wrapper first lets the wrapped metric write,
+   then stamps its own time over whatever is there *)
+Definition nested_timestamp (inner : option Z) (layers : list (Z * Z)) : option Z :=
+  fold_left (fun _ t => Some (timestamp_ms (fst t) (snd t))) layers inner.
+
 (* ------------------------------------------------------------------ value.go newExemplar *)
 Record exemplar := mkEx { ex_value : f64; ex_labels : list lpair }.
 
@@ -526,6 +532,13 @@ Fixpoint gaps_spec (ii : list Z) (next_i : Z) : bool :=
 
 (* --- timestamp: whole milliseconds toward minus infinity --- *)
 Definition timestamp_spec (unix_sec nanosecond : Z) : Z := (unix_sec * 1000000000 + nanosecond) / 1000000.  (* Z./ is floor *)
+
+(* the outermost wrapper's time is exposed; without a wrapper, what the metric wrote itself *)
+Definition nested_timestamp_spec (inner : option Z) (layers : list (Z * Z)) : option Z :=
+  match rev layers with
+  | [] => inner
+  | t :: _ => Some (timestamp_spec (fst t) (snd t))
+  end.
 
 (* --- exemplars --- *)
 Definition exemplar_ok_spec (l : list lpair) : bool :=
